@@ -12,6 +12,7 @@ CONSTANTS
   EngTypes <- OneEngine
   EngNeed <- OneNeed
   LiteralOrd = FALSE
+  FormulaOrd = FALSE
   VaryInit = FALSE
   MaxLevel = 100
 CONSTRAINT Bound
